@@ -10,6 +10,8 @@ RULE = ('encode: every n with |n| <= W exhaustively for the four codes plus rand
         'streams of mixed codes with random prefix/suffix; truncated codewords; codeword + trailing bits; '
         'keywords: values (0, False, True included) and lengths given as keywords of pack under names that are pieces of the code names, records of codes and fixed-width fields '
         'packed (positional / literal / keyword values, digit / keyword lengths, zero lengths) and read back, streams read by unpack / readlist / peeklist / token by token with used, unused and zero-valued keywords. '
+        'integers written as text (sign, leading zeros, underscores, whitespace - what int() accepts) through token strings on the four classes and their operators, pack positional / embedded / keyword / list, '
+        'keyword construction, property assignment, Dtype.build; sequences of mixed codes written as text built and read back. '
         'non-trivial = the case exercises a loop iteration (n != 0 / at least one leading zero) ; distinct by (op, arguments)')
 TRUSTED_BASE = ['hand model coq/Golomb.v of ue2bitstore/se2bitstore/uie2bitstore/sie2bitstore and Bits._readue/_readse/_readuie/_readsie, tied by vm_compute correspondence']
 ASSUMPTIONS = ['bitarray slicing/indexing and int2ba behave as Prims.v models them (L0 corr.)',
@@ -148,6 +150,7 @@ def gen_cases(rng, tier):
         rest = ''.join(rng.choice('01') for _ in range(rng.randrange(0, 12)))
         yield {'op': 'stream', 'items': items, 'pre': pre, 'rest': rest, 'via': rng.choice(['readlist', 'reads', 'unpack']), 'opt_ba': rng.random() < 0.4}
     yield from gen_kw(rng, tier)
+    yield from gen_text(rng, tier)
 
 
 # ---------------- keyword arguments of pack / unpack / readlist / peeklist ----------------
@@ -275,6 +278,59 @@ def gen_kw(rng, tier):
             it += [how, nm]
         yield {'op': 'kwpack', 'items': items, 'kw': kw, 'vals': vals, 'spell': rng.choice(['string', 'string', 'strings', 'chunks', 'factor', 'spaces']), 'colon': rng.randrange(2), 'bad': bad}
 
+# ---------------- integers written as text ----------------
+# Every place that takes the integer for one of the four codes also takes it as text - in a token string ('ue=7'), as the str handed to pack / a keyword / a
+# property - and what the text stands for is what plain Python's int() says: an optional sign, any number of leading zeros, single underscores between
+# digits, whitespace around it (anywhere at all inside a token string, from which whitespace is removed).  Whatever the spelling, the codeword is the table's
+# codeword for that integer; a negative integer for an unsigned code is refused however it is written.
+TEXT_CLASSES = ['Bits', 'BitArray', 'ConstBitStream', 'BitStream']
+
+def spell_int(rng, n, signed, style=None):
+    """one ASCII spelling of n that int() accepts (no surrounding whitespace); style 'pad' forces at least one leading zero, 'plain' is str(n)"""
+    if style == 'plain': return str(n)
+    sign = '-' if n < 0 else rng.choice(['', '', '+'])
+    if n == 0 and signed and rng.random() < 0.2: sign = '-'
+    d = str(abs(n))
+    r = rng.random()
+    if style == 'pad' or r < 0.55:
+        d = rng.choice(['0', '0', '00', '000', '0' * rng.randrange(4, 13), '0' * max(1, 8 - len(d))]) + d
+    if rng.random() < 0.15 and len(d) > 1:              # single underscores between digits
+        k = rng.randrange(1, len(d)); d = d[:k] + '_' + d[k:]
+        if rng.random() < 0.3 and len(d) - k > 2: d = d[:k + 2] + '_' + d[k + 2:]
+    s = sign + d
+    assert int(s) == n, (s, n)
+    return s
+
+def deco(rng, s):
+    """whitespace around a number (int() strips it; a token string drops it)"""
+    return rng.choice(['', '', '', ' ', '  ', '\t', '\n']) + s + rng.choice(['', '', '', ' ', '  ', '\t', '\n'])
+
+def gen_text(rng, tier):
+    q = tier == 'quick'
+    for code in CODES:
+        signed = code in ('se', 'sie')
+        ns = list(range(0, 41 if q else 400))
+        ns += [99, 100, 255, 256, 999, 1000, 4095, 65535, 10 ** 6]
+        ns += [(1 << k) + d for k in ([7, 8, 31, 32, 33, 52, 53, 63, 64, 65, 100, 200] if q else range(2, 210)) for d in (-1, 0, 1)]
+        ns += [rng.randrange(1 << rng.randrange(1, 200)) for _ in range(20 if q else 600)]
+        if signed: ns = ns + [-v for v in ns if v]
+        for j, n in enumerate(ns):
+            for style in (['pad', None] if abs(n) < 41 or j % 3 == 0 else [rng.choice(['pad', None, 'plain'])]):
+                t = spell_int(rng, n, signed, style)
+                yield {'op': 'enctext', 'code': code, 'n': n, 'txt': deco(rng, t), 'eqsp': [rng.choice(['', '', ' ', '  ']) for _ in range(2)]}
+        if not signed:          # refused, however the negative number is written
+            for n in [-1, -2, -7, -10, -255, -(1 << 64)] + [-rng.randrange(1, 1 << rng.randrange(1, 80)) for _ in range(6 if q else 100)]:
+                yield {'op': 'enctext', 'code': code, 'n': n, 'txt': deco(rng, spell_int(rng, n, True, rng.choice(['pad', None, 'plain']))), 'eqsp': ['', '']}
+    # sequences of mixed codes, every value written as text: one token string / pack with positional text / pack with keyword text, then read back code by code
+    for _ in range(120 if q else 3000):
+        items = []
+        for _ in range(rng.randrange(1, 8)):
+            code = rng.choice(CODES)
+            n = rand_code_value(rng, code)
+            items.append([code, n, deco(rng, spell_int(rng, n, code in ('se', 'sie'), rng.choice(['pad', 'pad', None, 'plain'])))])
+        yield {'op': 'streamtext', 'items': items, 'cls': rng.choice(TEXT_CLASSES), 'sep': rng.choice([',', ', ', ' , ', ',  ']),
+               'via': rng.choice(['readlist', 'reads', 'unpack', 'peeklist'])}
+
 def kind(c):
     return c['op'] + ':' + c.get('via', c.get('route', ''))
 
@@ -307,6 +363,64 @@ def run_impl(c):
             if route == 'pack_pos_extra': return pack(code, n, **extra).bin
             raise AssertionError(route)
         return attempt(f)
+    if op == 'enctext':
+        code, n, txt = c['code'], c['n'], c['txt']
+        ref = ref_enc(code, n)
+        tok = f"{code}{c['eqsp'][0]}={c['eqsp'][1]}{txt}"
+        K = {'Bits': Bits, 'BitArray': BitArray, 'ConstBitStream': ConstBitStream, 'BitStream': BitStream}
+        R = {}
+        for cn, C in K.items():
+            R['kw:' + cn] = lambda C=C: C(**{code: txt}).bin
+            R['token:' + cn] = lambda C=C: C(tok).bin
+        R['fromstring'] = lambda: BitStream.fromstring(tok).bin
+        R['add'] = lambda: (BitArray() + tok).bin
+        R['radd'] = lambda: (tok + Bits()).bin
+        def iadd():
+            a = BitStream(); a += tok; return a.bin
+        R['iadd'] = iadd
+        def app():
+            a = BitArray('0b1'); a.append(tok); a.prepend(tok); return a.bin
+        R['append_prepend'] = app
+        def sett():
+            a = BitArray('0b1'); setattr(a, code, txt); return a.bin
+        R['setattr'] = sett
+        R['build'] = lambda: Dtype(code).build(txt).bin
+        R['pack_pos'] = lambda: pack(code, txt).bin
+        R['pack_emb'] = lambda: pack(tok).bin
+        R['pack_kw'] = lambda: pack(f'{code}=k', k=txt).bin
+        R['pack_kw_piece'] = lambda: pack(f'{code} = e', e=txt, u=0).bin
+        R['pack_list'] = lambda: pack([code], txt).bin
+        R['pack_mixed'] = lambda: pack(f'uint:3, {code}, bool', 5, txt, True).bin
+        R['pack_mixed_emb'] = lambda: pack(f'uint:3=5, {tok}, bool=1').bin
+        R['pack_twice'] = lambda: pack(f'2*{code}', txt, txt).bin
+        if ref is not None:
+            R['eq'] = lambda: Bits(bin=ref) == tok
+            R['startswith'] = lambda: Bits(bin=ref + '01').startswith(tok)
+            R['find'] = lambda: list(BitArray(bin=ref).find(tok))
+        return ('ok', {k: list(attempt(f)) for k, f in R.items()})
+    if op == 'streamtext':
+        items = c['items']
+        codes = [it[0] for it in items]
+        C = {'Bits': Bits, 'BitArray': BitArray, 'ConstBitStream': ConstBitStream, 'BitStream': BitStream}[c['cls']]
+        whole = c['sep'].join(f'{code}={t}' for code, _, t in items)
+        def back(o):
+            s = ConstBitStream(o); via = c['via']
+            if via == 'unpack': return [o.bin, [int(v) for v in o.unpack(codes)], len(o)]
+            if via == 'readlist': vals = s.readlist(', '.join(codes))
+            elif via == 'peeklist': vals = s.peeklist(codes)
+            else:
+                vals, ps = [], []
+                for x in codes:
+                    vals.append(s.read(x)); ps.append(s.pos)
+                return [o.bin, [int(v) for v in vals], ps]
+            return [o.bin, [int(v) for v in vals], s.pos]
+        R = {'string:' + c['cls']: lambda: back(C(whole)),
+             'pack_string': lambda: back(pack(whole)),
+             'pack_pos': lambda: back(pack(c['sep'].join(codes), *[t for _, _, t in items])),
+             'pack_list': lambda: back(pack([f'{code}={t}' for code, _, t in items])),
+             'pack_kw': lambda: back(pack(c['sep'].join(f'{code}=v{j}' for j, code in enumerate(codes)), **{f'v{j}': t for j, (_, _, t) in enumerate(items)})),
+             'join_kw': lambda: back(Bits().join(Bits(**{code: t}) for code, _, t in items))}
+        return ('ok', {k: list(attempt(f)) for k, f in R.items()})
     if op == 'kwread':
         def canon(v):
             if isinstance(v, bool): return {'bool': v}
@@ -426,6 +540,33 @@ def oracle(c, obs):
         elif obs != ('ok', ref):
             return f"{c['code']}({c['n']!r}) via {c['route']}{' (keyword ' + repr(c['kwname']) + ', other keywords ' + str(c.get('extra')) + ')' if 'kwname' in c else ''} gave {obs}, table says {ref}"
         return None
+    if op == 'enctext':
+        code, n, txt = c['code'], c['n'], c['txt']
+        ref = ref_enc(code, n)
+        if obs[0] != 'ok': return f"{code} of the text {txt!r} (= {n}): {obs}"
+        for how, r in obs[1].items():
+            what = f"{code} of the integer {n} written as the text {txt!r} (int() reads it as {n}), route {how}"
+            if ref is None:
+                if r != ['err', 'ValueError']: return f"{what}: a negative value for an unsigned code must raise CreationError, got {r}"
+                continue
+            exp = {'eq': True, 'startswith': True, 'find': [0], 'append_prepend': ref + '1' + ref, 'pack_mixed': '101' + ref + '1', 'pack_mixed_emb': '101' + ref + '1',
+                   'pack_twice': ref + ref}.get(how, ref)
+            if r != ['ok', exp]: return f"{what}: gave {r}, the table's codeword for {n} is {ref!r} (expected {exp!r})"
+        return None
+    if op == 'streamtext':
+        items = c['items']
+        bits = ''.join(ref_enc(code, n) for code, n, _ in items)
+        ns = [n for _, n, _ in items]
+        ends, p = [], 0
+        for code, n, _ in items:
+            p += len(ref_enc(code, n)); ends.append(p)
+        if obs[0] != 'ok': return f"sequence of codes written as text {items}: {obs}"
+        for how, r in obs[1].items():
+            exp = [bits, ns, ends if c['via'] == 'reads' else 0 if c['via'] == 'peeklist' else len(bits)]
+            if r != ['ok', exp]:
+                return (f"the codes {[(code, t) for code, _, t in items]} (values written as text, standing for {ns}) built through {how} and read back via {c['via']} gave {r}; "
+                        f"the tables give the bits {bits!r}, the values {ns} and the position(s) {exp[2]}")
+        return None
     if op == 'kwread':
         items, kw = c['items'], c['kw']
         tokens = [item_token(it, c['colon']) for it in items]
@@ -509,6 +650,8 @@ def nontrivial(c, obs):
     if c['op'] in ('enc', 'setter_history'): return c['n'] != 0
     if c['op'] == 'stream': return len(c['items']) > 1
     if c['op'] in ('kwread', 'kwpack'): return bool(c['kw'] or c.get('vals'))
+    if c['op'] == 'enctext': return c['n'] != 0
+    if c['op'] == 'streamtext': return len(c['items']) > 1
     return '0' in c['bits'] and '1' in c['bits']
 
 def classify(c, obs):
@@ -521,6 +664,7 @@ def coq_check(c, obs):
     if op == 'setter_history':
         return f"rbits_eqb (g_enc {COQC[c['code']]} {cz(c['n'])}) (Ok {cbits(obs[1][0])})" if obs[0] == 'ok' else None
     if op in ('kwread', 'kwpack'): return None      # the keyword substitution of the tokenizer is not part of the Golomb model: the oracle decides
+    if op in ('enctext', 'streamtext'): return None # text -> integer is Python's int(), not part of the Golomb model: the oracle decides
     if op == 'enc':
         if c['route'] in ('token',) and obs[0] == 'err': return None  # token strings: parse errors are C05's
         if obs[0] == 'ok' and set(obs[1]) - set('01'): return 'false'
